@@ -444,6 +444,29 @@ func (s *Sim) writeFault(kind string, seq, opID int) *WriteFault {
 	return nil
 }
 
+// restartWanted: C12 and C13 restart the service at any step. The other
+// properties do not quantify over restarts; their plans contain clean restarts
+// only at instants at which a restart loses nothing the property speaks about:
+// no import queued or running (an upload whose import has not completed is
+// registered as known by the next start without ever being indexed, DESIGN
+// §8.4) and no converter job between its body and its completion (its output
+// for a superseded payload, the known finding of C16, would never be dropped).
+func (s *Sim) restartWanted() bool {
+	switch s.plan.Prop {
+	case "C12", "C13", "C09":
+		return true
+	}
+	if s.or.state != nil && len(s.or.state.ImportJobs) > 0 {
+		return false
+	}
+	for _, j := range s.jobs {
+		if j.kind == simrt.KindImport || j.kind == simrt.KindConvert {
+			return false
+		}
+	}
+	return true
+}
+
 // choose picks the next step in search mode.
 func (s *Sim) choose(en []stepRef) (stepRef, bool) {
 	var api, bg []stepRef
@@ -520,6 +543,12 @@ func (s *Sim) runSchedule() {
 		if s.replay != nil {
 			st, ok = s.nextReplay(en)
 		} else {
+			if restartAt[s.stepNo] && !s.restartWanted() {
+				// not now (see restartWanted): try again after the next step
+				delete(restartAt, s.stepNo)
+				restartAt[s.stepNo+1] = true
+				s.res.Count("restart_postponed", 1)
+			}
 			if restartAt[s.stepNo] {
 				delete(restartAt, s.stepNo)
 				st, ok = stepRef{label: "restart", kind: "restart"}, true
